@@ -10,6 +10,7 @@ Generated files
 Anything outside the expected statement shapes raises Unsupported.
 """
 import ast
+from . import srcnorm as _srcnorm
 import copy
 import os
 import types
@@ -67,7 +68,7 @@ def _u(n):
 
 def resolve_constants():
     """EPSILON as imported by gaussian.py.  Returns Fraction."""
-    gmod = ast.parse(open(GPATH).read())
+    gmod = _srcnorm.parse_file(GPATH)
     ok = False
     for n in gmod.body:
         if isinstance(n, ast.ImportFrom) and n.module == 'copulas.utils':
@@ -78,7 +79,7 @@ def resolve_constants():
             raise Unsupported('gaussian.py rebinds EPSILON at module level')
     if not ok:
         raise Unsupported('gaussian.py does not import EPSILON from copulas.utils')
-    umod = ast.parse(open(UPATH).read())
+    umod = _srcnorm.parse_file(UPATH)
     val = None
     for n in umod.body:
         if isinstance(n, ast.Assign) and len(n.targets) == 1 and isinstance(n.targets[0], ast.Name) \
